@@ -305,7 +305,7 @@ func ruleC11(c *Ctx) {
 }
 
 func ruleC12(c *Ctx) {
-	c.Explain("C12 (structural part): nil map-lookup dereference + guarded-container escape + lockset + branch facts. Decided: no pointer obtained from a map lookup in package protocol is dereferenced unless its presence test (ok / != nil) dominates the use; OrphanManage methods never return a slice or map that shares storage with its lock-guarded maps (delete compacts the child list in place while saveSubBlock iterates the result); orphan maps are accessed under the mutex; a block is parked as an orphan exactly when the store has no header for its parent, is otherwise saved, and its waiting children are connected recursively after a successful save; a saved block leaves the orphan pool; validation precedes the casper update. Not decided: that every orphan is eventually connected for every delivery order (liveness), absence of panics in callees outside package protocol.")
+	c.Explain("C12 (structural part): nil map-lookup dereference + guarded-container escape + lockset + branch facts. Decided: no pointer obtained from a map lookup in package protocol is dereferenced unless its presence test (ok / != nil) dominates the use; OrphanManage methods never return a slice or map that shares storage with its lock-guarded maps (delete compacts the child list in place while saveSubBlock iterates the result); orphan maps are accessed under the mutex; a block is parked as an orphan exactly when the store has no header for its parent, is otherwise saved, and its waiting children are connected recursively after a successful save; a saved block leaves the orphan pool; validation precedes the casper update; the best-chain tip is read, and the reorganisation attempted, after the waiting children were connected; saveSubBlock saves and recurses on the orphan it looked up. Not decided: that every orphan is eventually connected for every delivery order (liveness), absence of panics in callees outside package protocol.")
 	var fns []*ssa.Function
 	for f := range c.allFuncs() {
 		p := f.Pkg
@@ -394,6 +394,10 @@ func ruleC12(c *Ctx) {
 	if del != nil {
 		c.Require("pairing", fname(del)+": removes the block and its child-list entry", len(deletesOf(del, "protocol.OrphanManage", "orphan")) == 1 && (len(deletesOf(del, "protocol.OrphanManage", "prevOrphans")) >= 1 && len(mapUpdatesOf(del, "protocol.OrphanManage", "prevOrphans")) >= 1), "delete(orphan), delete/update(prevOrphans)")
 	}
+	// the tip handed to tryReorganize is read after the waiting children were connected
+	c.RequireOrder("order", pb, "(*protocol.Chain).saveSubBlock", "(*protocol/casper.Casper).BestChain")
+	c.RequireOrder("order", pb, "(*protocol.Chain).saveSubBlock", "(*protocol.Chain).tryReorganize")
+	c.orphanRecursion("dataflow")
 	c.Floor("nilmap", 3)
 	c.Floor("guardescape", 1)
 	c.Floor("lockset", 8)
@@ -580,7 +584,7 @@ func ruleC22(c *Ctx) {
 }
 
 func ruleC23(c *Ctx) {
-	c.Explain("C23 (structural part): ordering + data-flow + who-calls + branch facts. Decided: reorganizeChain removes from the pool every non-coinbase transaction of every attached block that was not restored, only after the new tip was committed (setState succeeded); detached transactions go back through full validation; the tip changes only through reorganizeChain; a pool-change event is posted by addTransaction (once per insert) and by RemoveTransaction only when the transaction was present, both under the pool lock. Not decided: disjointness of pool and main chain for every history.")
+	c.Explain("C23 (structural part): ordering + data-flow + who-calls + branch facts. Decided: reorganizeChain removes from the pool every non-coinbase transaction of every attached block that was not restored, only after the new tip was committed (setState succeeded); detached transactions go back through full validation; the tip changes only through reorganizeChain; a pool-change event is posted by addTransaction (once per insert) and by RemoveTransaction only when the transaction was present, both under the pool lock; RemoveTransaction unindexes every output of the removed transaction. Not decided: disjointness of pool and main chain for every history.")
 	rc := c.Func(pProto, "(*Chain).reorganizeChain")
 	c.RequireOrder("order", rc, kSetState, "(*protocol.TxPool).RemoveTransaction")
 	c.RequireOrder("order", rc, kSetState, "(*protocol.Chain).ValidateTx")
@@ -682,6 +686,14 @@ func ruleC23(c *Ctx) {
 		}
 		for _, s := range callsTo(f, false, "(*event.Dispatcher).Post") {
 			c.Require("lockset", fname(f)+": event posted under the pool lock", li.at[s].holds("protocol.TxPool.mtx", true), "locks %s", li.at[s].String())
+		}
+	}
+	// a removed (confirmed) transaction leaves no entry of its own outputs in the pool's output
+	// index: a stale entry makes a late-relayed, already confirmed child look spendable-from-pool
+	if rt := c.Func(pProto, "(*TxPool).RemoveTransaction"); rt != nil {
+		for _, d := range deletesOf(rt, "protocol.TxPool", "utxo") {
+			h, exits := loopExitEdges(d)
+			c.Require("dataflow", fname(rt)+": the removed transaction's own outputs (ResultIds) are unindexed, all of them", h != nil && len(exits) == 0 && mentions2(rt, readsField("protocol/bc.TxHeader", "ResultIds")), "range source / early exits")
 		}
 	}
 	c.Floor("order", 2)
